@@ -1096,6 +1096,11 @@ class HTTPResponse(BaseHTTPResponse):
         if not decode_content or data is None:
             return data
 
+        if not data and not self._has_decoded_content:
+            # A response without a body: like read(), don't flush a decoder
+            # that was never given anything (zstd would call that incomplete).
+            return data
+
         self._init_decoder()
         while True:
             flush_decoder = not data
